@@ -36,7 +36,7 @@ ASSUMPTIONS = [
     "after a peer was reset only the surviving workers are judged, and only for ids announced after the reset completed",
 ]
 MIN_NONTRIVIAL = {"quick": 8, "thorough": 40}
-REQUIRED_COUNTERS = ["e2e.e2e_pairs_checked", "e2e.e2e_cross_worker_pairs", "e2e.e2e_resubmission_pairs", "ids_announced", "deliveries_checked", "pushes_checked", "misaligned_chunks", "resubmissions", "deployment_configs", "crowded_workers"]
+REQUIRED_COUNTERS = ["e2e.e2e_pairs_checked", "e2e.e2e_cross_worker_pairs", "e2e.e2e_resubmission_pairs", "e2e.e2e_pairs_after_restart", "ids_announced", "deliveries_checked", "pushes_checked", "misaligned_chunks", "resubmissions", "deployment_configs", "crowded_workers"]
 SHARD_TIMEOUT = {"quick": 600, "thorough": 3200}
 
 
@@ -48,7 +48,7 @@ def e2e_plan(tier, seed):
     """shards on a REAL server process tree (vf/e2e.py)"""
     out = []
     for i in range(1 if tier == "quick" else 6):
-        out.append({"mode": "e2e", "e2e": "c20", "backend": "sql", "workers": 3 if i % 2 == 0 else 2, "seed": seed * 7919 + i, "nevents": 40 if tier == "quick" else 120})
+        out.append({"mode": "e2e", "e2e": "c20", "backend": "sql", "workers": 3 if i % 2 == 0 else 2, "seed": seed * 7919 + i, "nevents": 40 if tier == "quick" else 120, "restart": i % 2 == 0})
         out.append({"mode": "e2e", "e2e": "c20", "backend": "lmdb", "workers": 2 if i % 2 == 0 else 3, "seed": seed * 7919 + i, "nevents": 40 if tier == "quick" else 120})
     return out
 
